@@ -22,3 +22,9 @@ func VerifSampleKey(s *Sample) string {
 	}
 	return string(pm.sampleKey(s))
 }
+
+// VerifLocationKey returns the fields of the merge key of l.
+func VerifLocationKey(l *Location) (addr, mappingID uint64, lines string, isFolded bool) {
+	k := l.key()
+	return k.addr, k.mappingID, k.lines, k.isFolded
+}
